@@ -289,7 +289,74 @@ private:"""),
 
     values.resize(size);""", new="""    uint64_t size = 0;
     read(stream, size);
-    values.resize(size);"""),]
+    values.resize(size);"""),    # ---- C08
+    dict(property="C08", name="sample-guard-off-by-one-restored", rule="R-C08-1", file="src/dataset.cpp",
+         old="samples.max() >= m_datasource.samples()", new="samples.max() > m_datasource.samples()"),
+    dict(property="C08", name="feature-guard-off-by-one", rule="R-C08-1", file="src/dataset.cpp",
+         old="critical(feature < 0 || feature >= features(),", new="critical(feature < 0 || feature > features(),"),
+    dict(property="C08", name="flatten-without-check", rule="R-C08-2", file="src/dataset.cpp",
+         old="""tensor2d_map_t dataset_t::flatten(indices_cmap_t samples, tensor2d_t& buffer) const
+{
+    check(samples);
+""", new="""tensor2d_map_t dataset_t::flatten(indices_cmap_t samples, tensor2d_t& buffer) const
+{
+"""),
+    dict(property="C08", name="pairwise-scalar-marker-zero", rule="R-C08-3", file="include/nano/generator/pairwise.h", tu="src/generator/pairwise_product.cpp",
+         old="""                storage(index) = this->NaN;""", new="""                storage(index) = 0.0;"""),
+    dict(property="C08", name="dropped-sclass-marker-zero", rule="R-C08-3", file="src/generator.cpp",
+         old="""void generator_t::select(indices_cmap_t samples, const tensor_size_t ifeature, sclass_map_t storage) const
+{
+    if (should_drop(ifeature))
+    {
+        storage.full(-1);""", new="""void generator_t::select(indices_cmap_t samples, const tensor_size_t ifeature, sclass_map_t storage) const
+{
+    if (should_drop(ifeature))
+    {
+        storage.full(0);"""),
+    dict(property="C08", name="targets-missing-marked-minus-one", rule="R-C08-3", file="src/dataset.cpp",
+         old="""                            storage.array(index) = hits.array().template cast<scalar_t>() * 2.0 - 1.0;
+                        }
+                        else
+                        {
+                            storage.array(index).setConstant(std::numeric_limits<scalar_t>::quiet_NaN());""",
+         new="""                            storage.array(index) = hits.array().template cast<scalar_t>() * 2.0 - 1.0;
+                        }
+                        else
+                        {
+                            storage.array(index).setConstant(-1.0);"""),
+    dict(property="C08", name="const-visit-int16-from-i32-pool", rule="R-C08-5", file="include/nano/datasource.h", tu="src/datasource.cpp",
+         old="""        case feature_type::int16: return op(feature, m_storage_i16.slice(range).reshape(samples, d0, d1, d2), mask);
+        case feature_type::int32: return op(feature, m_storage_i32.slice(range).reshape(samples, d0, d1, d2), mask);
+        case feature_type::int64: return op(feature, m_storage_i64.slice(range).reshape(samples, d0, d1, d2), mask);
+        case feature_type::uint8: return op(feature, m_storage_u08.slice(range).reshape(samples, d0, d1, d2), mask);
+        case feature_type::uint16: return op(feature, m_storage_u16.slice(range).reshape(samples, d0, d1, d2), mask);
+        case feature_type::uint32: return op(feature, m_storage_u32.slice(range).reshape(samples, d0, d1, d2), mask);
+        case feature_type::uint64: return op(feature, m_storage_u64.slice(range).reshape(samples, d0, d1, d2), mask);
+        default: critical0("in-memory dataset: unhandled feature type (", static_cast<int>(feature.type()), ")!");
+        }
+        return op(feature, m_storage_u08.slice(range).reshape(-1), mask);
+    }
+
+    indices_t filter""",
+         new="""        case feature_type::int16: return op(feature, m_storage_i16.slice(range).reshape(samples, d0, d1, d2), mask);
+        case feature_type::int32: return op(feature, m_storage_i32.slice(range).reshape(samples, d0, d1, d2), mask);
+        case feature_type::int64: return op(feature, m_storage_i64.slice(range).reshape(samples, d0, d1, d2), mask);
+        case feature_type::uint8: return op(feature, m_storage_u08.slice(range).reshape(samples, d0, d1, d2), mask);
+        case feature_type::uint16: return op(feature, m_storage_u16.slice(range).reshape(samples, d0, d1, d2), mask);
+        case feature_type::uint32: return op(feature, m_storage_u64.slice(range).reshape(samples, d0, d1, d2), mask);
+        case feature_type::uint64: return op(feature, m_storage_u64.slice(range).reshape(samples, d0, d1, d2), mask);
+        default: critical0("in-memory dataset: unhandled feature type (", static_cast<int>(feature.type()), ")!");
+        }
+        return op(feature, m_storage_u08.slice(range).reshape(-1), mask);
+    }
+
+    indices_t filter"""),
+    dict(property="C08", name="resize-sclass-threshold-differs", rule="R-C08-5", file="src/datasource.cpp",
+         old=": (feature.classes() <= (tensor_size_t(1) << 16)) ? feature_type::uint16", new=": (feature.classes() < (tensor_size_t(1) << 16)) ? feature_type::uint16"),
+    dict(property="C08", name="getbit-other-bit-order", rule="R-C08-6", file="include/nano/datasource/mask.h", tu="src/datasource.cpp",
+         old="return (mask(sample / 8) & (0x01 << (7 - (sample % 8)))) != 0x00;", new="return (mask(sample / 8) & (0x01 << (sample % 8))) != 0x00;"),
+    dict(property="C08", name="mask-size-truncated", rule="R-C08-6", file="src/datasource.cpp",
+         old="m_storage_mask.resize(static_cast<tensor_size_t>(features.size()), (samples + 7) / 8);", new="m_storage_mask.resize(static_cast<tensor_size_t>(features.size()), samples / 8 + 1);"),]
 
 BENIGN = [
     dict(property="C07", name="lemarechal-swap-operands", file="src/lsearchk/lemarechal.cpp",
@@ -347,4 +414,6 @@ BENIGN = [
          old="""    critical(!::nano::read(stream, m_inputs) || !::nano::read(stream, m_target),
              "learner: failed to read from stream!");""", new="""    critical(!::nano::read(stream, m_inputs), "learner: failed to read from stream!");
     critical(!::nano::read(stream, m_target), "learner: failed to read from stream!");"""),
+    dict(property="C08", name="feature-guard-flipped-operands", file="src/dataset.cpp",
+         old="critical(feature < 0 || feature >= features(),", new="critical(0 > feature || features() <= feature,"),
 ]
